@@ -63,7 +63,7 @@ func (g *sessGen) datum(depth int) string {
 		case 1:
 			return common.Pick(g.r, []string{"\"s\"", "\"two words\"", "\"q\\\"x\"", "\"\""})
 		case 2:
-			return common.Pick(g.r, []string{"a", "b", "foo", "bar-baz"})
+			return common.Pick(g.r, []string{"a", "b", "foo", "bar-baz", "quote", "let", "lambda", "defun", "cond", "progn"})
 		case 3:
 			return common.Pick(g.r, []string{":k", ":key"})
 		case 4:
